@@ -2,8 +2,9 @@
 (* MC leg of C18 (calendar half): the state enumerates every date of [Lo, Hi] (parallel chains of ChainLen days,
    one action per day); the laws of the statement are invariants over the current date d (and its successor).
 
-   BinImpl selects the date_bin mechanism: "spec" = Calendar!DateBin, "shipped" = the walk of the shipped code
-   (non-vacuity configuration: TLC must violate BinInv on it).                                              *)
+   BinImpl selects the date_bin mechanism: "spec" = Calendar!DateBin (closed form), "walk" = the walk the code
+   performs (MC_Calendar_walk.cfg: it must satisfy the same laws), "shipped" = the walk before repair 5c4d63a,
+   `n >= source` (non-vacuity configuration: TLC must violate BinInv on it).                                *)
 EXTENDS Calendar, FiniteSets
 
 CONSTANTS Lo, Hi, Step, ChainLen, BinImpl, BinFull
@@ -135,7 +136,9 @@ IvalInv ==
        /\ Day(r) = IF Month(d) = 2 /\ Day(d) = 29 /\ ~IsLeap(Year(d) + y) THEN 28 ELSE Day(d)
 
 (* ---- date_bin: start of the stride-aligned bin containing the date ------------------------------------ *)
-Bin(iv, src, origin) == IF BinImpl = "shipped" THEN DateBinShipped(iv, src, origin) ELSE DateBin(iv, src, origin)
+Bin(iv, src, origin) == CASE BinImpl = "shipped" -> DateBinShipped(iv, src, origin)
+                          [] BinImpl = "walk"    -> DateBinWalk(iv, src, origin)
+                          [] OTHER               -> DateBin(iv, src, origin)
 StridesFull == {Ival(1, "day"), Ival(2, "day"), Ival(7, "day"), Ival(30, "day"),
                 Ival(1, "month"), Ival(2, "month"), Ival(3, "month"), Ival(5, "month"), Ival(12, "month"),
                 Ival(1, "year"), Ival(3, "year")}
@@ -157,7 +160,8 @@ BinInv ==
       /\ Bin(iv, b, o) = b                         \* a bin start is its own bin
       /\ b <= Bin(iv, d + 1, o)                    \* monotone in the source
       /\ Bin(iv, d, b) = b                         \* re-anchoring at a boundary does not move the bins
-      \* the named deviation states the shipped behaviour exactly on its inputs
+      /\ DateBinWalk(iv, d, o) = DateBin(iv, d, o)  \* the walk of the code and the closed form agree
+      \* the named deviation states the pre-repair behaviour exactly on its inputs
       /\ DateBinShipped(iv, d, o) =
            IF OnBoundaryAfterOrigin(iv, d, o) THEN PrevBin(iv, d, o) ELSE DateBin(iv, d, o)
 =============================================================================
